@@ -250,14 +250,22 @@ def strip_lean_comments(src):
 
 
 def lean_sources():
-    out = []
-    for root, _, files in os.walk(LEAN):
-        if ".lake" in root:
+    """the Lean files that are part of the build: everything reachable through `import` lines from the library roots and the two driver
+    entry points (a scratch file that nothing imports — e.g. a proof still being written — is not part of what is checked or run)"""
+    roots = ["TTModel.lean", "TTLemmas.lean", "TTProps.lean", "MainDriver.lean", "MainAD.lean"]
+    seen, todo = set(), [r for r in roots if os.path.exists(os.path.join(LEAN, r))]
+    while todo:
+        rel = todo.pop()
+        if rel in seen:
             continue
-        for f in files:
-            if f.endswith(".lean"):
-                out.append(os.path.join(root, f))
-    return sorted(out)
+        seen.add(rel)
+        for ln in open(os.path.join(LEAN, rel)).read().split("\n"):
+            m = re.match(r"\s*import\s+([A-Za-z0-9_.]+)", ln)
+            if m:
+                cand = m.group(1).replace(".", "/") + ".lean"
+                if os.path.exists(os.path.join(LEAN, cand)):
+                    todo.append(cand)
+    return sorted(os.path.join(LEAN, r) for r in seen)
 
 
 def lean_build_and_audit(prop, thorough=False):
